@@ -31,7 +31,7 @@ def specs_for(ctx):
     rng = random.Random(ctx.seed)
     specs = []
     bases = ctx.pick(["hexflower", "squares33", "brick33"], ["hexflower", "squares33", "brick33", "hex33", "irregular"])
-    stride = ctx.pick({"hexflower": 1, "squares33": 4, "brick33": 4}, {"hexflower": 1, "squares33": 1, "brick33": 1, "hex33": 1, "irregular": 16})
+    stride = ctx.pick({"hexflower": 1, "squares33": 4, "brick33": 4}, {"hexflower": 1, "squares33": 1, "brick33": 1, "hex33": 1, "irregular": 64})
     cfg = ctx.pick("MC_Interfaces_k13.cfg", "MC_Interfaces_k0137.cfg")
     ninst = 0
     for b in bases:
@@ -50,7 +50,7 @@ def specs_for(ctx):
                                                          "ignore_four": b == "squares33" and rng.random() < 0.5}),
                           "ids": {"offset": rng.choice([0, 3, 50]), "stride": rng.choice([1, 2])},
                           "nosolve": True})
-    for i in range(ctx.pick(80, 1500)):
+    for i in range(ctx.pick(80, 800)):
         k = rng.choice([0, 1, 2, 3, 5, 8, 15])
         specs.append({"tissue": {"kind": "equilibrium", "ncells": rng.choice([6, 12, 25, 45]),
                                  "mobius": rng.choice([0.0, 0.5, 1.0, 1.6])},
